@@ -28,9 +28,11 @@ CONFIG = {'gen': [],
                'tamper_detected_or_collision, tamper_detected_or_collision_or_selfcontained, '
                'bitflip_detected_or_collision_or_selfcontained, keyhash_value_tamper_detected (H arbitrary), dn_binary_roundtrip (every DN '
                'byte string), identifier_roundtrip, rsa_material_roundtrip, cki_ladders_agree, guid_roundtrip are proved in Lean for all '
-               'inputs about a hand-written model of the key-credential code with fixes/C14-*.diff applied; parse_panics_counterexample_* '
-               "witness the panics that keep 'every corruption is rejected' from holding outright; the model is tied to the code by "
-               'running both on the same generated inputs on every run.',
+               'inputs about a hand-written model of the key-credential code with fixes/C14-*.diff and fixes/C07-*.diff applied; with the '
+               'C07 repairs no decoder of the model can panic (parse_total, integrity_total, new_total), so the tampering clause holds at '
+               'full strength: bitflip_rejected_or_collision (every single-bit corruption of the covered entries makes FromBytes return an '
+               'error or CheckIntegrity return false, or exhibits a collision / self-containing digest of H); parse_rejects_* are the '
+               'former crash inputs, now errors; the model is tied to the code by running both on the same generated inputs on every run.',
  'level_note': 'Trusted: Lean kernel; axioms propext, Classical.choice, Quot.sound; the hand model is tied to the Go code only by '
                'differential testing (bounded); stdlib semantics as modelled; SHA-256 idealised as an arbitrary function (collision / '
                "self-containing-digest resistance is what 'detects tampering' reduces to)."}
